@@ -250,6 +250,23 @@ theorem recover_depth (ls : List Link) (hne : ls ≠ []) (hfirst : ∀ l, ls.hea
     cases k <;> simp [chainFrames, chainDecs, Link.frames, Link.decs]
 
 
+/-- the model's exact depth reading (`lines = d + 1` for every d) is what V8 delivers iff `Error.stackTraceLimit`
+    is unbounded; with a finite limit all stacks deeper than the limit look alike -/
+theorem depth_observable_iff (limit : Option Nat) : (∀ d, observedLines limit d = d + 1) ↔ limit = none := by
+  constructor
+  · intro h
+    cases limit with
+    | none => rfl
+    | some l =>
+      have := h (l + 1)
+      simp [observedLines] at this
+  · intro h d; subst h; rfl
+
+/-- with a finite limit `l` two different depths beyond it are indistinguishable: the depth test of `$recover`
+    (equality of two readings taken 2 frames apart) can then never succeed -/
+theorem finite_limit_saturates (l d : Nat) (h : l ≤ d) : observedLines (some l) d = observedLines (some l) (d + 2) := by
+  simp [observedLines]; omega
+
 /-! ## emulation versus reference -/
 
 /-- FULL statement (both directions, all programs), NOT claimed: whenever both interpreters finish, they agree on
